@@ -79,7 +79,10 @@ def _eq(a: AV, b: AV) -> bool:
 def semirings(prog: Program) -> List[Sem]:
     base = prog.cls(SR, 'Semiring')
     out = []
-    for c in prog.subclasses(base, strict=True):
+    subs = prog.subclasses(base, strict=True)
+    for c in subs:
+        if c.name not in CARRIER and c.name.startswith('_') and any(c in prog.mro(d)[1:] for d in subs):
+            continue            # a private intermediate base class shared by concrete semirings: its methods are checked through them (MRO)
         if c.name not in CARRIER:
             raise AnalysisError(f"semiring subclass {c.name} has no carrier description in the checker; add it to CARRIER")
         out.append(Sem(prog, c))
@@ -152,6 +155,9 @@ def run_laws(prog: Program, rep: Report, thorough: bool = False) -> None:
                 # star(x) >= one : add(star(x), one) == star(x) classwise (one is absorbed)
                 ob('C08-L6 star', f"star(x) >= one at x in {c}", 'NAN' not in r.cls and not (r.cls & below_one(S, O)),
                    f"star({{{c}}}) = {r}")
+                # star(x) solves y = one + x*y
+                rhs = S.call('add', one, S.call('mul', S.cls(c), r))
+                ob('C08-L6 star', f"star(x) = one + x*star(x) at x in {c}", 'NAN' not in r.cls and _eq(r, rhs), f"star({{{c}}}) = {r}; one + x*star(x) = {rhs}")
             # L7 sub
             for c in S.carrier:
                 x = S.cls(c)
@@ -240,8 +246,21 @@ def einsum_callbacks(prog: Program, S: Sem) -> Dict[str, FuncInfo]:
         for n in own_nodes(g.node):
             if isinstance(n, ast.Call) and isinstance(n.func, ast.Name) and n.func.id == 'compute_sum' and len(n.args) >= 3:
                 m = n.args[2]
+                if isinstance(m, ast.Name) and m.id not in nested:
+                    from ..util import single_assignments
+                    for scope in (g, f):
+                        sa_ = single_assignments(scope.node)
+                        if m.id in sa_:
+                            m = sa_[m.id]          # a local name for the callback
+                            break
                 if isinstance(m, ast.Name) and m.id in nested:
                     out['mul'] = nested[m.id]
+                elif isinstance(m, ast.Name) and m.id in f.module.functions and not f.module.functions[m.id].is_lambda:
+                    out['mul'] = f.module.functions[m.id]           # a module-level function given as the callback
+                elif isinstance(m, ast.Attribute) and isinstance(m.value, ast.Name) and m.value.id in f.module.classes:
+                    cm = prog.find_method(f.module.classes[m.value.id], m.attr)   # a (static) method given as the callback
+                    if cm is not None:
+                        out['mul'] = cm
                 a = n.args[0]
                 out.setdefault('add_names', [])  # type: ignore
                 out['add_names'].append(norm(a))  # type: ignore
